@@ -34,6 +34,9 @@ class CXX2C(Emitter, ExprMixin, LibMixin, StmtMixin):
             d = self.byid[i]
             if d.get('kind') not in ('FunctionDecl', 'CXXMethodDecl', 'CXXConstructorDecl', 'CXXConversionDecl'): continue
             if d.get('isImplicit'): continue
+            if d.get('kind') != 'FunctionDecl':
+                ow = self.owner_record(d)
+                if ow is not None and not ow.get('name'): continue      # lambda call operators are not roots
             if n == qn or n.endswith('::' + qn):
                 out.append(d)
         return out
